@@ -198,12 +198,12 @@ Section Batch.
   Variable h : str -> cell.
   Variable T : frame -> list (str * (nat -> cell)).
   Variable rnd : str -> nat -> cell.
-  Variable sample : list (list str) -> list (list str).     (* prior_combinations_sample, any behaviour *)
+  Variable sample : bool -> list (list str) -> list (list str).   (* prior_combinations_sample (per pass: is3mr), any behaviour *)
   Variable perm : str -> list str -> list str.              (* set iteration order of the multi-value tokens *)
 
   Definition step_combined (cfg : config) (is3mr : bool) : step :=
     fun df => Some (combined h (if is3mr then SEP_AND_REL else SEP_AND) df
-                             (sample (candidates df (c_label cfg) (c_io cfg) is3mr))).
+                             (sample is3mr (candidates df (c_label cfg) (c_io cfg) is3mr))).
   Definition batch_steps (cfg : config) : list step :=
     (if c_transformers cfg then [transform T] else [])
     ++ (match c_explode cfg with Some feats => [fun df => multivalue perm df (c_missing cfg) feats] | None => [] end)
@@ -213,6 +213,15 @@ Section Batch.
     ++ (if c_noise cfg then [fun df => noisy rnd df (c_label cfg)] else []).
   Definition batch_construct (cfg : config) (df : frame) : option frame := run_steps (batch_steps cfg) df.
 End Batch.
+
+(* the sampler returns its candidates least-used first; with a non-binding cap that is a reordering which depends on the
+   history of the process.  To run the model next to the implementation the observed order of the new columns is used:
+   candidates whose name was observed come first, in the observed order *)
+Definition order_cands (sep : str) (obs : list str) (cands : list (list str)) : list (list str) :=
+  flat_map (fun nm => filter (fun c => streqb (join sep c) nm) cands) obs
+  ++ filter (fun c => negb (memb (join sep c) obs)) cands.
+Definition observed_sample (obs : list str) (is3mr : bool) (cands : list (list str)) : list (list str) :=
+  order_cands (if is3mr then SEP_AND_REL else SEP_AND) obs cands.
 
 (* ================= checkers run on what the implementation returned ================= *)
 (* the generic clause: originals preserved exactly, every new column has one value per row *)
